@@ -55,12 +55,12 @@ type V struct {
 
 var NilV = &V{K: Nil, n: 1, d: 1}
 
-func B(b bool) *V      { return &V{K: Bool, B: b, n: 1, d: 1} }
-func I(i int) *V       { return &V{K: Int, I: i, n: 1, d: 1} }
-func F(f float64) *V   { return &V{K: Float, F: f, n: 1, d: 1} }
-func S(s string) *V    { return &V{K: Str, S: s, n: 1, d: 1} }
-func L(e ...*V) *V     { v := &V{K: Lst, L: e}; v.fix(); return v }
-func O(kv ...KV) *V    { v := &V{K: Obj, KV: kv}; v.fix(); return v }
+func B(b bool) *V         { return &V{K: Bool, B: b, n: 1, d: 1} }
+func I(i int) *V          { return &V{K: Int, I: i, n: 1, d: 1} }
+func F(f float64) *V      { return &V{K: Float, F: f, n: 1, d: 1} }
+func S(s string) *V       { return &V{K: Str, S: s, n: 1, d: 1} }
+func L(e ...*V) *V        { v := &V{K: Lst, L: e}; v.fix(); return v }
+func O(kv ...KV) *V       { v := &V{K: Obj, KV: kv}; v.fix(); return v }
 func P(k string, v *V) KV { return KV{k, v} }
 
 func (v *V) fix() {
@@ -79,8 +79,8 @@ func (v *V) fix() {
 	}
 }
 
-func (v *V) Nodes() int { return v.n }
-func (v *V) Depth() int { return v.d }
+func (v *V) Nodes() int        { return v.n }
+func (v *V) Depth() int        { return v.d }
 func (v *V) IsContainer() bool { return v.K == Lst || v.K == Obj }
 
 // Field returns the spec of key k of an object spec.
